@@ -99,7 +99,7 @@ type hsModel struct {
 	wrongNetEst bool
 }
 
-func (m *hsModel) feed(it *item, allowSelf bool) {
+func (m *hsModel) feed(it *item, allowSelf bool, localPV uint32) {
 	switch m.phase {
 	case phExpectVersion:
 		switch it.kind {
@@ -125,7 +125,13 @@ func (m *hsModel) feed(it *item, allowSelf bool) {
 		}
 	case phExpectVerack:
 		switch it.kind {
-		case itSendAddrV2, itWtxid, itUnknown:
+		case itWtxid, itUnknown:
+		case itSendAddrV2:
+			// BIP155 feature negotiation belongs to protocol version 70016 and
+			// later; what a peer does with it below that is not claimed
+			if localPV < 70016 || m.remotePV < 70016 {
+				m.phase = phUnjudged
+			}
 		case itVerack:
 			m.phase = phEstablished
 		case itUnknownBad:
